@@ -49,13 +49,14 @@ man = {
                            'numpy object arrays / astropy Quantity), path forking at bool(), SMT validity queries'},
         {'name': 'pyxsym', 'path': 'vf/pyxsym.py', 'serves_properties': [p for p in ('C01', 'C02', 'C03', 'C04', 'C08', 'C15') if p in CLAIMED],
          'kind_free_text': 'AST interpreter for the Cython kernel sources (.pyx lowered on every run), ite-merging'},
-        {'name': 'crosshair', 'path': 'vf/xhair.py', 'serves_properties': [p for p in ('C19', 'C17') if p in CLAIMED],
-         'kind_free_text': 'CrossHair 0.0.110 contracts on pure-Python integer/string units'},
+        {'name': 'solve', 'path': 'vf/solve.py', 'serves_properties': sorted(CLAIMED),
+         'kind_free_text': 'solver layer: z3 5.1 validity queries (slicing, factor / linear abstraction, Int handling, portfolio); '
+                           'cvc5 1.4 re-decides a sample of the unsat verdicts in the thorough tier (--cross)'},
     ],
     'checks': checks,
     'not_applicable': na,
     'notes': 'All checks: exit 0 held / 1 VIOLATION (replayed on the real library) / 3 inconclusive / 2 harness error. '
-             'See DESIGN.md.',
+             'See DESIGN.md (section 11 is the as-built record). Any check can be pointed at another tree with VERIF_REPO=<dir>.',
 }
 json.dump(man, open(os.path.join(HERE, 'MANIFEST.json'), 'w'), indent=1)
 print('claimed', sorted(CLAIMED), 'na', len(na))
